@@ -119,3 +119,14 @@ prop("C12",
           "close frame before the connection ends; nothing after a close frame) and the same reference model for JSON-RPC on both transports. non-trivial: an upgrade completed and at least one protocol-level frame was judged; distinct by trace hash",
      nontrivial=[["ws_upgraded", "ws_ping"], ["ws_upgraded", "ws_violation_1002"], ["ws_upgraded", "ws_close_valid"], ["ws_upgraded", "ws_violation_1007"], ["ws_upgraded", "ws_fragment"]],
      required_probes=["ws_upgraded", "ws_ping", "ws_pong_matched", "ws_pong_in", "ws_close_valid", "ws_violation_1002", "ws_violation_1007", "ws_violation_1002_or_1007", "ws_fragment", "ws_binary", "ws_close_from_daemon:1002", "ws_close_from_daemon:1007"])
+
+prop("C09",
+     mix=[("c09", "default", 3), ("c09", "small", 2), ("c09", "batch1", 0.5)],
+     quick_mix=[("c09", "default", 2), ("c09", "small", 1)],
+     quick_s=30, thorough_s=600, opts={"memprop": "C09"},
+     rule="differential: each seeded plan (1-4 raw, unix and WebSocket connections; well-formed and hostile JSON-RPC, JSON cut short and followed by its completion, zero lengths, messages that exactly fill the read buffer, lengths above the maximum) "
+          "is executed twice on the simulated kernel - once with every message delivered whole, one readiness event per batch, and once with the same bytes cut at random (down to single bytes, across length-prefix, message, header-line and frame "
+          "boundaries), prefixes of later messages arriving early, read caps, coalesced and permuted event batches and a different garbage fill of fresh memory - while the order of complete messages is preserved; the bytes accepted from the daemon "
+          "on every connection and the open/closed state must be identical (heap pointers inside routed ids normalised). non-trivial: the second execution used at least 3 partial deliveries; distinct by the pair of trace hashes",
+     nontrivial=[["segmented_send>=3"]],
+     required_probes=["segmented_send", "early_prefix_of_next", "short_read", "drop:length prefix above the maximum", "multi_message_read", "ws_upgraded", "routed_seen_by_owner", "canary_ok"])
